@@ -340,6 +340,8 @@ def lib_adapter(which, config):
         outs = {"w_rdy": dut.w_rdy, "r_rdy": dut.r_rdy, "r_data": dut.r_data, "level": dut.level}
 
         def tr(st):
+            if st["k"] == "rst":
+                return ("drive", {"sync.rst": st["l"]})
             return ("set", st["v"]) if st["k"] == "set" else ("drive", {"sync.clk": st["l"]})
     elif which == "C13":
         from props import c13
